@@ -3,7 +3,7 @@ from rtmon import shape
 
 LEVEL = 'exploration'
 EXHAUSTIVE = False
-JOB_TIMEOUT = 2400
+JOB_TIMEOUT = 5400
 PID = 'C01'
 RULE = ("every Model.parse return event of: W-corpus (all Python-supported Specs inputs of the culture x every registered model of that culture; quick tier: seeded sample of >=500 inputs per culture), W-noise (1-15 tokens from spec words + numerals, punctuation, full-width and CJK forms, emoji, U+0130 and other case-expanding code points), W-gen (the generated expressions of the other checkers in carrier sentences) and W-multi (2-4 expressions per sentence). Oracle per entity: int offsets, 0<=start<=end<len(q), N(text).strip()==N(q[start..end]).strip() with the harness's own length-preserving normaliser N. non-trivial = the call returned at least one entity; distinct = distinct (culture, model, query, reference).")
 
